@@ -6,7 +6,7 @@
 
     Natural parameters of a gamma are pairs [(alpha, beta)] = (shape - 1, rate).
     The moment-matching projections ([approx.*_projection]) are NOT modelled here: they are
-    an arbitrary, possibly stateful, oracle [project : O -> call -> option (V2 * V2 * O)]
+    an arbitrary, possibly stateful, oracle [project : Orc -> call -> option (V2 * V2 * Orc)]
     (a Section variable).  Two instances are used: a tape of recorded results (the
     correspondence with the implementation) and the closed-form conjugate update (C20).
     A Python [AssertionError]/[IndexError] is [None].  No proofs in this file. *)
